@@ -666,11 +666,13 @@ func parseNumber(s []byte) (Object, error) {
 		return Integer(x), nil
 	}
 
-	y, err := strconv.ParseFloat(string(s), 64)
-	if err == strconv.ErrRange {
-		return nil, &postScriptError{eLimitcheck, fmt.Sprintf("number %q out of range", s)}
-	} else if err == nil && !math.IsInf(y, 0) && !math.IsNaN(y) {
-		return Real(y), nil
+	if realNumberRe.Match(s) {
+		y, err := strconv.ParseFloat(string(s), 64)
+		if err == strconv.ErrRange {
+			return nil, &postScriptError{eLimitcheck, fmt.Sprintf("number %q out of range", s)}
+		} else if err == nil && !math.IsInf(y, 0) && !math.IsNaN(y) {
+			return Real(y), nil
+		}
 	}
 
 	mm := radixNumberRe.FindSubmatch(s)
@@ -686,5 +688,9 @@ func parseNumber(s []byte) (Object, error) {
 
 	return nil, &postScriptError{eSyntaxerror, fmt.Sprintf("invalid number %q", s)}
 }
+
+// realNumberRe is the PostScript syntax of decimal integers and reals
+// (strconv.ParseFloat alone also accepts underscores and hex floats).
+var realNumberRe = regexp.MustCompile(`^[+-]?([0-9]+\.?[0-9]*|\.[0-9]+)([eE][+-]?[0-9]+)?$`)
 
 var radixNumberRe = regexp.MustCompile(`^([0-9]{1,2})#([0-9a-zA-Z]+)$`)
